@@ -11,7 +11,9 @@ Correspondence = the same descriptor (algorithms in the order the real factories
            through lean/Driver/C09.lean (Model/Dag.lean), compared as canonical sets."""
 import json
 import multiprocessing
+import shutil
 import signal
+import tempfile
 
 from . import common
 from . import c09_engine as E
@@ -27,7 +29,8 @@ MANIFEST = dict(
          'algorithm declares a value of the parent as input after expansion), ancestry_closure and '
          'ancestry_closure_value (ancestry = transitive closure of those edges; termination of the '
          '_ancestry loop is derived from acyclicity), feedback_no_edge, feedbacks_total/feedbacks_sound, '
-         'construct_ok, and the exported anc_closed/anc_declared used by the scheduler properties. The model '
+         'construct_ok and construct_error_branches (KeyError only for a fed-back name that is no node), and the '
+         'exported anc_closed (AncClosed) used by the scheduler properties. The model '
          'is tied to the real scanner and the real dag.Construct by a correspondence run on engines '
          'written to disk as real Python packages, and an independent monitor states the property on '
          'the real graphs.',
@@ -39,9 +42,9 @@ MANIFEST = dict(
          'dawgie *_REF is assumed to be an instance of the registered class); names contain no dot; '
          'acyclicity is meant at algorithm level and excludes an algorithm reading its own output. '
          'On cyclic input the Python _ancestry loop does not terminate; the model reports this as an '
-         'explicit error (Err.diverges) and it is not executed against the code. The dict order of '
-         'Construct.feedbacks (last writer wins) follows the factory order, which is passed to the model '
-         'as observed. Node attributes used by the scheduler (level, do/doing/todo, status) and the SVG '
+         'explicit error (Err.diverges) and it is not executed against the code. Construct.feedbacks is '
+         'compared as value -> consumer algorithm (any declared consumer when there are several; the model '
+         'receives the algorithms in the factory order observed on the real scanner). Node attributes used by the scheduler (level, do/doing/todo, status) and the SVG '
          'rendering are not covered here. The loops of _build_tree and _feedback are modelled as folds over their '
          'flattened iteration space, _parents and Node.trim as one visited-set depth-first walk plus '
          'point-wise set comprehension (the Python may revisit a node; revisits are idempotent).',
@@ -198,6 +201,8 @@ def monitor(eng, obs, err, res):
     elif any(at['alg'][t] != t.split('.')[1] for t in at['tags']):
         res.hit('C09:at-nodes-alg', 'an algorithm node carries another algorithm instance', rep)
     for name, lvl in LEVELS:
+        if name == 'tt':
+            continue  # task granularity is not in the property text: correspondence only
         tree = obs[name]
         if sorted(tree['tags_by_children']) != sorted(exp[name]['nodes']):
             if name != 'at':
@@ -448,7 +453,19 @@ def compare(res, eng, obs, err, model, merr):
         for key in ('roots', 'tags', 'children', 'feedback', 'ancestry', 'parents'):
             if key in model[name] and model[name][key] != obs[name][key]:
                 res.diff('Dag.%s.%s vs dag.Construct' % (name, key), case, model[name][key], obs[name][key])
-    if model['feedbacks'] != obs['feedbacks']:
+    consumers = {}
+    for c in eng['algs']:
+        for v in expand(eng, c['feedback']):
+            consumers.setdefault(v, set()).add(alg_id(c))
+
+    def canon(fbs):
+        out = {}
+        for v, c in fbs.items():
+            algs = consumers.get(v, ())
+            out[v] = trim(c, 2) if len(algs) <= 1 else ('one-of' if trim(c, 2) in algs else trim(c, 2))
+        return out
+
+    if canon(model['feedbacks']) != canon(obs['feedbacks']):
         res.diff('Dag.feedbacks vs Construct.feedbacks', case, model['feedbacks'], obs['feedbacks'])
 
 
@@ -469,7 +486,7 @@ def run(ctx, res):
                 'state vectors) is compared with the model only')
     res.assumptions = list(TRUSTED)
     cases = [('corpus', e) for e in corpus()]
-    n = 1600 if thorough else 110
+    n = 1600 if thorough else 220
     for _ in range(n):
         cases.append(('random', gen_engine(r)))
     for _ in range(n // 8):
@@ -478,20 +495,25 @@ def run(ctx, res):
         kind, eng = malformed(r)
         cases.append(('malformed:' + kind, eng))
     done, hangs = [], 0
-    if thorough:
-        with multiprocessing.Pool(16) as pool:
-            for item in pool.imap(_work, cases, chunksize=4):
-                done.append(item)
-                hangs += item[2][1] == 'hangs'
+    E.TMP_PARENT = tempfile.mkdtemp(prefix='c09run_')  # workers inherit it; removed below even if they are killed
+    try:
+        if thorough:
+            with multiprocessing.Pool(16) as pool:
+                for item in pool.imap(_work, cases, chunksize=4):
+                    done.append(item)
+                    hangs += item[2][1] == 'hangs'
+                    if hangs >= MAX_HANGS:
+                        pool.terminate()
+                        break
+        else:
+            for c in cases:
+                done.append(_work(c))
+                hangs += done[-1][2][1] == 'hangs'
                 if hangs >= MAX_HANGS:
-                    pool.terminate()
                     break
-    else:
-        for c in cases:
-            done.append(_work(c))
-            hangs += done[-1][2][1] == 'hangs'
-            if hangs >= MAX_HANGS:
-                break
+    finally:
+        shutil.rmtree(E.TMP_PARENT, ignore_errors=True)
+        E.TMP_PARENT = None
     if len(done) < len(cases):
         res.count('skipped-after-hangs', len(cases) - len(done))
     lines, pending = [], []
